@@ -51,8 +51,8 @@ pub fn def() -> PropDef {
     panic_policy: PanicPolicy::Count,
     rule: "random ASCII wrapped trees and call histories (<=10 quick / <=25 thorough calls) over a CachedSource and up to two clones: source/buffer/size/rope/to_writer/map(c)/stream(c)/map of an enclosing ConcatSource (final-source streaming)/hash/clone; every answer is compared with an uncached instance of the same tree (text literal, GeneratedInfo, attribution per character / per line), repeated map() answers must be equal, columns=false answers must not carry column detail of a columns=true entry, and cache slots are peeked after every call (None* Some(x)* per key); non-trivial = the wrapped tree has a map and the history contains both a fill and a later read of the same key (cold -> warm); distinct = case fingerprint",
     cases: |t| match t {
-      Tier::Quick => 30_000,
-      Tier::Thorough => 500_000,
+      Tier::Quick => 100_000,
+      Tier::Thorough => 1_500_000,
     },
   }
 }
